@@ -44,8 +44,12 @@ def units(bins, tier, seed):
     add("lru", 0, 0, 3000 if not thorough else 50000, 4 if not thorough else 5, "lru")
     add("lru", 1, BIG, 3000 if not thorough else 50000, 2, "lru")
     for seg in (512, 1024, 4096):
-        add("shm", 1, seg, 1000 if not thorough else 10000, 1 if not thorough else 2, "shm")
-        add("cycles", 1, seg, 500 if not thorough else 4000, 1, "cycles")
+        if thorough:    # same totals per segment size, more shards for the slow large segment
+            add("shm", 1, seg, 5000 if seg == 4096 else 10000, 4 if seg == 4096 else 2, "shm")
+            add("cycles", 1, seg, 2000, 2, "cycles")
+        else:
+            add("shm", 1, seg, 1000, 1, "shm")
+            add("cycles", 1, seg, 500, 1, "cycles")
     # one unit of each kind first (the evidence keeps the samples of the first units)
     first = [u for u in us if u.name.endswith("-0") and ("s512" in u.name or "lru" in u.name)]
     return first + [u for u in us if u not in first]
